@@ -45,7 +45,7 @@ P = 'C09'
 BUDGETS = {'C09': (75, 1200, 40)}
 LEVELS = {'C09': 'exploration'}
 ALLOWED = (ServerError, ProtocolError, SSLVerificationError, NetworkError)
-PROBES = {'C09': ['layer.http', 'layer.web', 'layer.robots', 'layer.ftp', 'layer.crawl', 'robots_redirected_to_other_origin', 'crawl_with_warc', 'crawl_restrict_file_names', 'crawl_url_rewriting_option', 'crawl_post_data', 'redirect_to_directory_of_same_name', 'crawl_ftp', 'ftp_odd_size_reply', 'ftp_symlinks', 'continue_with_partial_files', 'long_line', 'raw_random', 'truncated', 'odd_location',
+PROBES = {'C09': ['layer.http', 'layer.web', 'layer.robots', 'layer.ftp', 'layer.crawl', 'robots_redirected_to_other_origin', 'crawl_with_warc', 'crawl_restrict_file_names', 'crawl_url_rewriting_option', 'crawl_post_data', 'redirect_to_directory_of_same_name', 'crawl_ftp', 'ftp_odd_size_reply', 'ftp_symlinks', 'continue_with_partial_files', 'timestamping_with_left_over_files', 'long_line', 'raw_random', 'truncated', 'odd_location',
                   'odd_cookie', 'cookie_flood', 'bad_compression', 'ftp_reply_mutated', 'ftp_listing_mutated', 'hostile_html', 'hostile_css', 'hostile_js',
                   'hostile_sitemap', 'hostile_robots', 'real_file_writer', 'per_url_error_seen', 'healthy_fetched_after_hostile', 'reset', 'stall']}
 INFO = {'C09': {
@@ -584,8 +584,13 @@ def layer_crawl(tape, r, tier):
             if not with_warc and tape.chance(1, 3, 'continue'):        # (wpull refuses --continue together with WARC output)
                 # --continue with files left by an earlier run: the server is free to ignore the Range request (200), to
                 # answer 416, or to send a 206 that does not fit
-                argv.append('--continue')
-                r.probes['continue_with_partial_files'] += 1
+                # ... or -N (timestamping): the files of the earlier run are compared with what the server says about them
+                if tape.chance(1, 3, 'continue.or_timestamping'):
+                    argv.append('-N')
+                    r.probes['timestamping_with_left_over_files'] += 1
+                else:
+                    argv.append('--continue')
+                    r.probes['continue_with_partial_files'] += 1
                 # (files of the FTP origin as well: the client then asks SIZE and REST before RETR)
                 for fu in ftp_urls:
                     rel = fu.split('://', 1)[1]
